@@ -1175,7 +1175,7 @@ func main() {
 	// ---- random histories
 	nHist, nProxy := 260, 120
 	if thorough {
-		nHist, nProxy = 12000, 5000
+		nHist, nProxy = 8000, 3000
 	}
 	for i := 0; i < nHist; i++ {
 		pool := genPool(pairs)
